@@ -1,1 +1,1163 @@
--- property theorems for C12 (stub)
+import RP.Model.Transport
+import RP.Lemmas.ArithReal
+import RP.Lemmas.MetricReal
+import RP.Lemmas.Hist
+import RP.Lemmas.Greedy
+import RP.Lemmas.Entropic
+import Mathlib.Algebra.BigOperators.Fin
+import Mathlib.Tactic.Ring
+import Mathlib.Tactic.Linarith
+import Mathlib.Tactic.Positivity
+import Mathlib.Algebra.BigOperators.Group.Finset.Basic
+import Mathlib.Algebra.Order.BigOperators.Group.Finset
+import Mathlib.Algebra.BigOperators.Ring.Finset
+import Mathlib.Order.Interval.Finset.Nat
+set_option linter.unusedSimpArgs false
+/-! # C12 — earth mover's distances are (near-)optimal transport costs
+
+Model: `RP.Transport` instantiated with `ℝ` (`RP/Lemmas/ArithReal.lean`): exact arithmetic.
+Rounding, overflow and NaN of the `f32` implementation are outside these theorems (DESIGN §2);
+the `Float32` instantiation of the same definitions is compared with the real code on every run.
+
+① `sinkhorn_cols`, `sinkhorn_cols_le`, `sinkhorn_cols_eq`, `sinkhorn_plan_pos`, `sinkhorn_final`,
+  `C12_sinkhorn_plan` (column sums / non-negativity / total mass at exit of `minimize`)
+① `C12_equity_*` (closed form, 100/101 factor, symmetric, zero iff equal, triangle, cut lower bound)
+① `C12_greedy_*` (feasibility invariants, termination, cost = plan cost ≥ every lower bound)
+-/
+namespace RP.C12
+open RP.Transport
+
+/-! ## Sinkhorn: column sums after an `rhs` update -/
+
+/-- `e_x = exp(lhs x − C(y, x)/T)`: the term of `x` in the log-sum-exp of the `rhs` update at `y` -/
+noncomputable def eTerm (d : Nat → Nat → ℝ) (T : ℝ) (y : Nat) (xf : Nat × ℝ) : ℝ :=
+  Real.exp (xf.2 - d y xf.1 / T)
+
+/-- the clamped partition sum `Σ_x max(e_x, MIN_POSITIVE)` -/
+noncomputable def clampSum (d : Nat → Nat → ℝ) (T : ℝ) (y : Nat) (lhs : Pot ℝ) : ℝ :=
+  (lhs.map fun xf => max (eTerm d T y xf) minPosR).sum
+
+theorem divergence_R (d : Nat → Nat → ℝ) (T : ℝ) (y : Nat) (py : ℝ) (lhs : Pot ℝ) :
+    divergence d T y py lhs = Real.log py - Real.log (clampSum d T y lhs) := by
+  simp only [divergence, R_sub, R_log, sum_eq, R_max, R_exp, reg, R_div, R_minPos, clampSum, eTerm]
+
+theorem clampSum_pos (d : Nat → Nat → ℝ) (T : ℝ) (y : Nat) (lhs : Pot ℝ) (hne : lhs ≠ []) :
+    0 < clampSum d T y lhs := by
+  unfold clampSum
+  cases lhs with
+  | nil => exact absurd rfl hne
+  | cons x xs =>
+    simp only [List.map_cons, List.sum_cons]
+    have h1 : 0 < max (eTerm d T y x) minPosR := lt_of_lt_of_le minPosR_pos (le_max_right _ _)
+    have h2 : 0 ≤ (xs.map fun xf => max (eTerm d T y xf) minPosR).sum :=
+      List.sum_nonneg (by
+        intro a ha
+        obtain ⟨e, _, rfl⟩ := List.mem_map.mp ha
+        exact le_of_lt (lt_of_lt_of_le minPosR_pos (le_max_right _ _)))
+    linarith
+
+theorem list_sum_map_mul_left (l : List (Nat × ℝ)) (c : ℝ) (f : Nat × ℝ → ℝ) :
+    (l.map fun x => c * f x).sum = c * (l.map f).sum := by
+  induction l with
+  | nil => simp
+  | cons x xs ih => simp [ih, mul_add]
+
+/-- **① `sinkhorn_cols`** — exact column sum of the plan after an `rhs` update, clamp included:
+    for every entry `(y, g)` of the updated right potential with `ν(y) > 0`, and a symmetric cost,
+    `Σ_x P(x,y) = ν(y) · (Σ_x e_x) / (Σ_x max(e_x, ε))`. -/
+theorem sinkhorn_cols (d : Nat → Nat → ℝ) (hsym : ∀ x y, d x y = d y x) (T : ℝ) (nu : Hist)
+    (lhs rhs0 : Pot ℝ) (yg : Nat × ℝ) (hy : yg ∈ rhsUpd d T nu lhs rhs0) (hpos : 0 < (density nu yg.1 : ℝ)) :
+    (lhs.map fun xf => coupling d T xf.1 xf.2 yg.1 yg.2).sum
+      = density nu yg.1 * (lhs.map (eTerm d T yg.1)).sum / clampSum d T yg.1 lhs := by
+  simp only [rhsUpd, List.mem_map] at hy
+  obtain ⟨y0, _, rfl⟩ := hy
+  simp only
+  by_cases hne : lhs = []
+  · subst hne; simp [clampSum]
+  have hS := clampSum_pos d T y0.1 lhs hne
+  have hexp : Real.exp (divergence d T y0.1 (density nu y0.1) lhs)
+      = density nu y0.1 / clampSum d T y0.1 lhs := by
+    rw [divergence_R, Real.exp_sub, Real.exp_log hpos, Real.exp_log hS]
+  have hterm : ∀ xf : Nat × ℝ,
+      coupling d T xf.1 xf.2 y0.1 (divergence d T y0.1 (density nu y0.1) lhs)
+        = (density nu y0.1 / clampSum d T y0.1 lhs) * eTerm d T y0.1 xf := by
+    intro xf
+    simp only [coupling, R_exp, R_sub, R_add, reg, R_div, eTerm]
+    rw [← hexp, ← Real.exp_add, hsym xf.1 y0.1]
+    congr 1; ring
+  simp only [hterm]
+  rw [list_sum_map_mul_left]
+  ring
+
+/-- the plan never over-fills a column: `Σ_x P(x,y) ≤ ν(y)` whatever the clamp did -/
+theorem sinkhorn_cols_le (d : Nat → Nat → ℝ) (hsym : ∀ x y, d x y = d y x) (T : ℝ) (nu : Hist)
+    (lhs rhs0 : Pot ℝ) (yg : Nat × ℝ) (hy : yg ∈ rhsUpd d T nu lhs rhs0) (hpos : 0 < (density nu yg.1 : ℝ)) :
+    (lhs.map fun xf => coupling d T xf.1 xf.2 yg.1 yg.2).sum ≤ density nu yg.1 := by
+  rw [sinkhorn_cols d hsym T nu lhs rhs0 yg hy hpos]
+  by_cases hne : lhs = []
+  · subst hne; simp [clampSum]; exact le_of_lt hpos
+  have hS := clampSum_pos d T yg.1 lhs hne
+  rw [div_le_iff₀ hS]
+  apply mul_le_mul_of_nonneg_left _ (le_of_lt hpos)
+  unfold clampSum
+  apply List.sum_le_sum
+  intro xf _
+  exact le_max_left _ _
+
+/-- when no term is below `MIN_POSITIVE` the column sum is exactly `ν(y)` -/
+theorem sinkhorn_cols_eq (d : Nat → Nat → ℝ) (hsym : ∀ x y, d x y = d y x) (T : ℝ) (nu : Hist)
+    (lhs rhs0 : Pot ℝ) (yg : Nat × ℝ) (hy : yg ∈ rhsUpd d T nu lhs rhs0) (hpos : 0 < (density nu yg.1 : ℝ))
+    (hne : lhs ≠ []) (hclamp : ∀ xf ∈ lhs, minPosR ≤ eTerm d T yg.1 xf) :
+    (lhs.map fun xf => coupling d T xf.1 xf.2 yg.1 yg.2).sum = density nu yg.1 := by
+  rw [sinkhorn_cols d hsym T nu lhs rhs0 yg hy hpos]
+  have hS := clampSum_pos d T yg.1 lhs hne
+  have : clampSum d T yg.1 lhs = (lhs.map (eTerm d T yg.1)).sum := by
+    unfold clampSum
+    congr 1
+    apply List.map_congr_left
+    intro xf hxf
+    exact max_eq_left (hclamp xf hxf)
+  rw [← this]
+  field_simp
+
+/-- every plan entry is positive (`P ≥ 0`) -/
+theorem sinkhorn_plan_pos (d : Nat → Nat → ℝ) (T : ℝ) (x : Nat) (f : ℝ) (y : Nat) (g : ℝ) :
+    0 < coupling d T x f y g := by
+  simp only [coupling, R_exp]; exact Real.exp_pos _
+
+/-! ## the loop: the last half-step of every iteration is an `rhs` update -/
+
+theorem rhsUpd_idem (d : Nat → Nat → ℝ) (T : ℝ) (nu : Hist) (lhs r0 : Pot ℝ) :
+    rhsUpd d T nu lhs (rhsUpd d T nu lhs r0) = rhsUpd d T nu lhs r0 := by
+  simp [rhsUpd, List.map_map, Function.comp_def]
+
+theorem rhsUpd_keys (d : Nat → Nat → ℝ) (T : ℝ) (nu : Hist) (lhs r0 : Pot ℝ) :
+    (rhsUpd d T nu lhs r0).map Prod.fst = r0.map Prod.fst := by
+  simp [rhsUpd, List.map_map, Function.comp_def]
+
+theorem lhsUpd_keys (d : Nat → Nat → ℝ) (T : ℝ) (mu : Hist) (l0 rhs : Pot ℝ) :
+    (lhsUpd d T mu l0 rhs).map Prod.fst = l0.map Prod.fst := by
+  simp [lhsUpd, List.map_map, Function.comp_def]
+
+/-- the state invariant: the right potential is the `rhs` update of the current left potential -/
+def RhsFresh (d : Nat → Nat → ℝ) (T : ℝ) (nu : Hist) (s : SK ℝ) : Prop :=
+  s.rhs = rhsUpd d T nu s.lhs s.rhs
+
+theorem skIter_fresh (d : Nat → Nat → ℝ) (T tol : ℝ) (mu nu : Hist) (s s1 : SK ℝ) (b : Bool)
+    (h : skIter d T tol mu nu s = some (s1, b)) :
+    RhsFresh d T nu s1 ∧ s1.lhs.map Prod.fst = s.lhs.map Prod.fst ∧ s1.rhs.map Prod.fst = s.rhs.map Prod.fst := by
+  unfold skIter at h
+  simp only at h
+  split at h
+  · split at h
+    · simp only [Option.some.injEq, Prod.mk.injEq] at h
+      obtain ⟨rfl, _⟩ := h
+      exact ⟨(rhsUpd_idem d T nu _ _).symm, lhsUpd_keys .., rhsUpd_keys ..⟩
+    · cases h
+  · cases h
+
+theorem skLoop_fresh (d : Nat → Nat → ℝ) (T tol : ℝ) (mu nu : Hist) (n : Nat) (s s' : SK ℝ)
+    (hs : RhsFresh d T nu s) (h : skLoop d T tol mu nu n s = some s') :
+    RhsFresh d T nu s' ∧ s'.lhs.map Prod.fst = s.lhs.map Prod.fst ∧ s'.rhs.map Prod.fst = s.rhs.map Prod.fst := by
+  induction n generalizing s with
+  | zero => simp only [skLoop, Option.some.injEq] at h; subst h; exact ⟨hs, rfl, rfl⟩
+  | succ n ih =>
+    simp only [skLoop] at h
+    cases hi : skIter d T tol mu nu s with
+    | none => rw [hi] at h; cases h
+    | some r =>
+      obtain ⟨s1, b⟩ := r
+      rw [hi] at h
+      simp only at h
+      obtain ⟨hf, hk1, hk2⟩ := skIter_fresh d T tol mu nu s s1 b hi
+      cases b with
+      | true => simp only [if_true, Option.some.injEq] at h; subst h; exact ⟨hf, hk1, hk2⟩
+      | false =>
+        simp only [Bool.false_eq_true, if_false] at h
+        obtain ⟨h1, h2, h3⟩ := ih s1 hf h
+        exact ⟨h1, h2.trans hk1, h3.trans hk2⟩
+
+/-- **① the stopping rule cannot break the column marginals**: after at least one iteration
+    (whether the loop ran to its bound or stopped early) the final right potential is the `rhs`
+    update of the final left potential, and the supports are unchanged. -/
+theorem sinkhorn_final (d : Nat → Nat → ℝ) (T tol : ℝ) (mu nu : Hist) (n : Nat) (s s' : SK ℝ)
+    (h : skLoop d T tol mu nu (n + 1) s = some s') :
+    RhsFresh d T nu s' ∧ s'.lhs.map Prod.fst = s.lhs.map Prod.fst ∧ s'.rhs.map Prod.fst = s.rhs.map Prod.fst := by
+  simp only [skLoop] at h
+  cases hi : skIter d T tol mu nu s with
+  | none => rw [hi] at h; cases h
+  | some r =>
+    obtain ⟨s1, b⟩ := r
+    rw [hi] at h
+    simp only at h
+    obtain ⟨hf, hk1, hk2⟩ := skIter_fresh d T tol mu nu s s1 b hi
+    cases b with
+    | true => simp only [if_true, Option.some.injEq] at h; subst h; exact ⟨hf, hk1, hk2⟩
+    | false =>
+      simp only [Bool.false_eq_true, if_false] at h
+      obtain ⟨h1, h2, h3⟩ := skLoop_fresh d T tol mu nu n s1 s' hf h
+      exact ⟨h1, h2.trans hk1, h3.trans hk2⟩
+
+theorem density_pos (h : Hist) (hv : h.Valid) (e : Nat × Nat) (he : e ∈ h.counts) : 0 < (density h e.1 : ℝ) := by
+  simp only [density, R_div, R_ofNat, Hist.count_of_mem h hv.wf e he]
+  exact div_pos (by exact_mod_cast hv.counts_pos e he) (by exact_mod_cast hv.mass_pos)
+
+theorem density_total (h : Hist) (hv : h.Valid) : (h.counts.map fun e => (density h e.1 : ℝ)).sum = 1 := by
+  have h1 : (h.counts.map fun e => (density h e.1 : ℝ)) = h.counts.map fun e => (e.2 : ℝ) / h.mass := by
+    apply List.map_congr_left
+    intro e he
+    simp only [density, R_div, R_ofNat, Hist.count_of_mem h hv.wf e he]
+  rw [h1]
+  have h2 : ∀ (l : List (Nat × Nat)) (m : ℝ), (l.map fun e => (e.2 : ℝ) / m).sum = ((l.map Prod.snd).sum : ℕ) / m := by
+    intro l m
+    induction l with
+    | nil => simp
+    | cons x xs ih => simp [ih, add_div]
+  rw [h2, ← hv.mass_eq]
+  exact div_self (by exact_mod_cast (ne_of_gt hv.mass_pos))
+
+/-- column sum of the plan of a state at `(y, g)` -/
+noncomputable def colSum (d : Nat → Nat → ℝ) (T : ℝ) (s : SK ℝ) (yg : Nat × ℝ) : ℝ :=
+  (s.lhs.map fun xf => coupling d T xf.1 xf.2 yg.1 yg.2).sum
+
+/-- **C12, Sinkhorn plan** — for the plan `minimize` returns (any metric, any two valid histograms,
+    at least one iteration — `RP.Gen.C12.iterations = 128`), over ℝ:
+    every entry is positive; every column sum is `≤ ν(y)`, given exactly by `sinkhorn_cols`;
+    and if no exponential falls below `MIN_POSITIVE` every column sum equals `ν(y)` and the total
+    mass is `1`. -/
+theorem C12_sinkhorn_plan (T tol : ℝ) (n : Nat) (m : Metric ℝ) (mu nu : Hist) (hnu : nu.Valid) (s : SK ℝ)
+    (h : minimize T tol (n + 1) m mu nu = some s) :
+    (∀ xf ∈ s.lhs, ∀ yg ∈ s.rhs, 0 < coupling m.distD T xf.1 xf.2 yg.1 yg.2) ∧
+    s.lhs.map Prod.fst = mu.support ∧ s.rhs.map Prod.fst = nu.support ∧
+    (∀ yg ∈ s.rhs, colSum m.distD T s yg
+        = density nu yg.1 * (s.lhs.map (eTerm m.distD T yg.1)).sum / clampSum m.distD T yg.1 s.lhs) ∧
+    (∀ yg ∈ s.rhs, colSum m.distD T s yg ≤ density nu yg.1) ∧
+    ((∀ yg ∈ s.rhs, ∀ xf ∈ s.lhs, minPosR ≤ eTerm m.distD T yg.1 xf) →
+        (∀ yg ∈ s.rhs, colSum m.distD T s yg = density nu yg.1) ∧
+        (s.rhs.map (colSum m.distD T s)).sum = 1) := by
+  unfold minimize at h
+  split at h
+  · cases h
+  · rename_i hemp
+    split at h
+    · obtain ⟨hf, hk1, hk2⟩ := sinkhorn_final m.distD T tol mu nu n (skInit mu nu) s h
+      have hsym := Metric.distD_symm m
+      have hkl : s.lhs.map Prod.fst = mu.support := by
+        rw [hk1]; simp [skInit, uniform, Hist.support, List.map_map, Function.comp_def]
+      have hkr : s.rhs.map Prod.fst = nu.support := by
+        rw [hk2]; simp [skInit, uniform, Hist.support, List.map_map, Function.comp_def]
+      have hlne : s.lhs ≠ [] := by
+        intro he
+        rw [he] at hkl
+        simp only [List.map_nil, Hist.support] at hkl
+        have : mu.counts = [] := List.map_eq_nil_iff.mp hkl.symm
+        simp [this] at hemp
+      have hposy : ∀ yg ∈ s.rhs, 0 < (density nu yg.1 : ℝ) := by
+        intro yg hyg
+        have : yg.1 ∈ nu.support := by rw [← hkr]; exact List.mem_map_of_mem hyg
+        obtain ⟨e, he, hee⟩ := List.mem_map.mp this
+        rw [← hee]; exact density_pos nu hnu e he
+      have hmem : ∀ yg ∈ s.rhs, yg ∈ rhsUpd m.distD T nu s.lhs s.rhs := by
+        intro yg hyg; rw [← hf]; exact hyg
+      refine ⟨fun xf _ yg _ => sinkhorn_plan_pos .., hkl, hkr, ?_, ?_, ?_⟩
+      · intro yg hyg
+        exact sinkhorn_cols m.distD hsym T nu s.lhs s.rhs yg (hmem yg hyg) (hposy yg hyg)
+      · intro yg hyg
+        exact sinkhorn_cols_le m.distD hsym T nu s.lhs s.rhs yg (hmem yg hyg) (hposy yg hyg)
+      · intro hcl
+        have heq : ∀ yg ∈ s.rhs, colSum m.distD T s yg = density nu yg.1 := fun yg hyg =>
+          sinkhorn_cols_eq m.distD hsym T nu s.lhs s.rhs yg (hmem yg hyg) (hposy yg hyg) hlne (hcl yg hyg)
+        refine ⟨heq, ?_⟩
+        have : s.rhs.map (colSum m.distD T s) = s.rhs.map fun yg => (density nu yg.1 : ℝ) :=
+          List.map_congr_left heq
+        rw [this]
+        have h2 : (s.rhs.map fun yg => (density nu yg.1 : ℝ)) = (s.rhs.map Prod.fst).map fun y => (density nu y : ℝ) := by
+          simp [List.map_map, Function.comp_def]
+        rw [h2, hkr]
+        simp only [Hist.support, List.map_map, Function.comp_def]
+        exact density_total nu hnu
+    · cases h
+
+/-- the generated iteration bound is at least one, so `C12_sinkhorn_plan` applies to the real loop -/
+theorem iterations_pos : ∃ n, RP.Gen.C12.iterations = n + 1 := ⟨127, by decide⟩
+
+/-! ## Equity: `variation` is the 1-D Wasserstein distance on the percent grid, times 100/101 -/
+section equity
+open Finset
+
+/-- cumulative distribution `F(i) = Σ_{j ≤ i} p(j)` -/
+noncomputable def cdf (p : ℕ → ℝ) (i : ℕ) : ℝ := ∑ j ∈ range (i + 1), p j
+
+theorem cdf_succ (p : ℕ → ℝ) (i : ℕ) : cdf p (i + 1) = cdf p i + p (i + 1) := by
+  unfold cdf; rw [sum_range_succ]
+
+theorem foldl_cdfStep (p q : ℕ → ℝ) (n : ℕ) :
+    (List.range n).foldl (cdfStep p q) (0, 0, 0)
+      = (∑ j ∈ range n, p j, ∑ j ∈ range n, q j, ∑ i ∈ range n, |cdf p i - cdf q i|) := by
+  induction n with
+  | zero => simp
+  | succ n ih =>
+    rw [List.range_succ, List.foldl_append, ih]
+    simp only [List.foldl_cons, List.foldl_nil, cdfStep, R_add, R_sub, R_abs]
+    rw [sum_range_succ, sum_range_succ, sum_range_succ]
+    simp only [cdf, sum_range_succ]
+
+/-- **closed form**: `variation = (Σ_{i<n} |F_x(i) − F_y(i)|) / n` (`n = 101` buckets) -/
+theorem C12_equity_closed_form (n : ℕ) (p q : ℕ → ℝ) :
+    variationOn n p q = (∑ i ∈ range n, |cdf p i - cdf q i|) / n := by
+  unfold variationOn
+  simp only [R_ofNat, R_sumSeed, R_div, Nat.cast_zero]
+  rw [foldl_cdfStep]
+
+/-- **the 100/101 factor**: for two distributions of equal total mass over `N + 1` buckets the last
+    CDF term vanishes, so `variation = (N/(N+1)) · W₁` with `W₁ = Σ_{i<N} |F_x(i) − F_y(i)| / N`
+    the 1-D Wasserstein distance for the ground distance `|i − j| / N` (`N = 100`). -/
+theorem C12_equity_w1_factor (N : ℕ) (hN : 0 < N) (p q : ℕ → ℝ)
+    (hpq : ∑ j ∈ range (N + 1), p j = ∑ j ∈ range (N + 1), q j) :
+    variationOn (N + 1) p q = ((N : ℝ) / (N + 1)) * ((∑ i ∈ range N, |cdf p i - cdf q i|) / N) := by
+  rw [C12_equity_closed_form, sum_range_succ]
+  have hlast : cdf p N - cdf q N = 0 := by unfold cdf; rw [hpq]; ring
+  rw [hlast, abs_zero, add_zero]
+  have h1 : (N : ℝ) ≠ 0 := by exact_mod_cast (ne_of_gt hN)
+  have h2 : ((N : ℝ) + 1) ≠ 0 := by positivity
+  push_cast
+  field_simp
+
+/-- symmetric -/
+theorem C12_equity_symm (n : ℕ) (p q : ℕ → ℝ) : variationOn n p q = variationOn n q p := by
+  rw [C12_equity_closed_form, C12_equity_closed_form]
+  congr 1
+  apply sum_congr rfl
+  intro i _; exact abs_sub_comm _ _
+
+/-- non-negative -/
+theorem C12_equity_nonneg (n : ℕ) (p q : ℕ → ℝ) : 0 ≤ variationOn n p q := by
+  rw [C12_equity_closed_form]
+  exact div_nonneg (sum_nonneg fun i _ => abs_nonneg _) (Nat.cast_nonneg n)
+
+/-- triangle inequality -/
+theorem C12_equity_triangle (n : ℕ) (p q r : ℕ → ℝ) :
+    variationOn n p r ≤ variationOn n p q + variationOn n q r := by
+  rw [C12_equity_closed_form, C12_equity_closed_form, C12_equity_closed_form, ← add_div]
+  apply div_le_div_of_nonneg_right _ (Nat.cast_nonneg n)
+  rw [← sum_add_distrib]
+  apply sum_le_sum
+  intro i _
+  have : cdf p i - cdf r i = (cdf p i - cdf q i) + (cdf q i - cdf r i) := by ring
+  rw [this]; exact abs_add_le _ _
+
+/-- **zero only between equal distributions** (and zero between equal ones) -/
+theorem C12_equity_zero_iff (n : ℕ) (hn : 0 < n) (p q : ℕ → ℝ) :
+    variationOn n p q = 0 ↔ ∀ i < n, p i = q i := by
+  rw [C12_equity_closed_form]
+  have hn' : (n : ℝ) ≠ 0 := by exact_mod_cast (ne_of_gt hn)
+  rw [div_eq_zero_iff]
+  simp only [hn', or_false]
+  rw [sum_eq_zero_iff_of_nonneg (fun i _ => abs_nonneg _)]
+  constructor
+  · intro h i hi
+    have hc : ∀ k < n, cdf p k = cdf q k := by
+      intro k hk
+      have := h k (mem_range.mpr hk)
+      rw [abs_eq_zero] at this; linarith
+    cases i with
+    | zero =>
+      have := hc 0 hi
+      simpa [cdf] using this
+    | succ i =>
+      have h1 := hc (i + 1) hi
+      have h0 := hc i (by omega)
+      rw [cdf_succ, cdf_succ, h0] at h1
+      linarith
+  · intro h i hi
+    have : cdf p i = cdf q i := by
+      unfold cdf
+      apply sum_congr rfl
+      intro j hj
+      exact h j (by have := mem_range.mp hj; have := mem_range.mp hi; omega)
+    rw [this, sub_self, abs_zero]
+
+/-! ### the cut argument: every feasible plan costs at least `Σ |F_x − F_y|` -/
+
+theorem sum_range_ite_le (n k : ℕ) (hk : k < n) (f : ℕ → ℝ) :
+    ∑ i ∈ range n, (if i ≤ k then f i else 0) = ∑ i ∈ range (k + 1), f i := by
+  rw [← sum_subset (s₁ := range (k + 1)) (s₂ := range n)]
+  · apply sum_congr rfl
+    intro i hi
+    have := mem_range.mp hi
+    simp [show i ≤ k by omega]
+  · intro i hi; exact mem_range.mpr (by have := mem_range.mp hi; omega)
+  · intro i _ hi
+    have : ¬ i ≤ k := by intro h; exact hi (mem_range.mpr (by omega))
+    simp [this]
+
+/-- number of cuts `k` separating `a ≤ b` is `b − a` -/
+theorem cuts_between (n a b : ℕ) (hab : a ≤ b) (hbn : b ≤ n) :
+    ∑ k ∈ range n, |(if a ≤ k then (1 : ℝ) else 0) - (if b ≤ k then 1 else 0)| = (b : ℝ) - a := by
+  have h1 : ∀ k, |(if a ≤ k then (1 : ℝ) else 0) - (if b ≤ k then 1 else 0)|
+      = if a ≤ k ∧ k < b then 1 else 0 := by
+    intro k
+    by_cases h1 : a ≤ k <;> by_cases h2 : b ≤ k
+    · simp [h1, h2, show ¬ k < b by omega]
+    · simp [h1, h2, show k < b by omega]
+    · exfalso; omega
+    · simp [h1, h2]
+  simp only [h1]
+  rw [sum_boole]
+  have : (range n).filter (fun k => a ≤ k ∧ k < b) = Ico a b := by
+    ext k; simp only [mem_filter, mem_range, mem_Ico]; omega
+  rw [this, Nat.card_Ico, Nat.cast_sub hab]
+
+theorem cuts_abs (n i j : ℕ) (hi : i < n) (hj : j < n) :
+    ∑ k ∈ range n, |(if i ≤ k then (1 : ℝ) else 0) - (if j ≤ k then 1 else 0)| = |(i : ℝ) - j| := by
+  rcases le_total i j with h | h
+  · rw [cuts_between n i j h (by omega)]
+    have : (i : ℝ) ≤ j := by exact_mod_cast h
+    rw [abs_sub_comm, abs_of_nonneg (by linarith)]
+  · have := cuts_between n j i h (by omega)
+    have h2 : ∀ k, |(if i ≤ k then (1 : ℝ) else 0) - (if j ≤ k then 1 else 0)|
+        = |(if j ≤ k then (1 : ℝ) else 0) - (if i ≤ k then 1 else 0)| := fun k => abs_sub_comm _ _
+    simp only [h2]
+    rw [this]
+    have : (j : ℝ) ≤ i := by exact_mod_cast h
+    rw [abs_of_nonneg (by linarith)]
+
+/-- **lower bound (cut argument)**: for every plan `π ≥ 0` on the `n × n` grid with row sums `p` and
+    column sums `q`, `Σ_k |F_p(k) − F_q(k)| ≤ Σ_{i,j} π(i,j)·|i − j|`. Dividing by `N = n − 1`:
+    every feasible plan for the ground distance `|i − j|/N` costs at least `Σ_k |F_p(k) − F_q(k)|/N`. -/
+theorem C12_equity_lower_bound (n : ℕ) (p q : ℕ → ℝ) (π : ℕ → ℕ → ℝ)
+    (hπ : ∀ i j, 0 ≤ π i j)
+    (hrow : ∀ i < n, ∑ j ∈ range n, π i j = p i)
+    (hcol : ∀ j < n, ∑ i ∈ range n, π i j = q j) :
+    ∑ k ∈ range n, |cdf p k - cdf q k| ≤ ∑ i ∈ range n, ∑ j ∈ range n, π i j * |(i : ℝ) - j| := by
+  -- step 1: each cut
+  have hcut : ∀ k < n, |cdf p k - cdf q k| ≤
+      ∑ i ∈ range n, ∑ j ∈ range n, π i j * |(if i ≤ k then (1 : ℝ) else 0) - (if j ≤ k then 1 else 0)| := by
+    intro k hk
+    have hp : cdf p k = ∑ i ∈ range n, ∑ j ∈ range n, π i j * (if i ≤ k then (1 : ℝ) else 0) := by
+      unfold cdf
+      rw [← sum_range_ite_le n k hk]
+      apply sum_congr rfl
+      intro i hi
+      rw [← hrow i (mem_range.mp hi)]
+      by_cases h : i ≤ k <;> simp [h]
+    have hq : cdf q k = ∑ i ∈ range n, ∑ j ∈ range n, π i j * (if j ≤ k then (1 : ℝ) else 0) := by
+      unfold cdf
+      rw [← sum_range_ite_le n k hk, sum_comm]
+      apply sum_congr rfl
+      intro j hj
+      rw [← hcol j (mem_range.mp hj)]
+      by_cases h : j ≤ k <;> simp [h]
+    rw [hp, hq, ← sum_sub_distrib]
+    refine le_trans (abs_sum_le_sum_abs _ _) (sum_le_sum fun i _ => ?_)
+    rw [← sum_sub_distrib]
+    refine le_trans (abs_sum_le_sum_abs _ _) (sum_le_sum fun j _ => ?_)
+    rw [← mul_sub, abs_mul, abs_of_nonneg (hπ i j)]
+  -- step 2: sum over the cuts and exchange the sums
+  calc ∑ k ∈ range n, |cdf p k - cdf q k|
+      ≤ ∑ k ∈ range n, ∑ i ∈ range n, ∑ j ∈ range n,
+          π i j * |(if i ≤ k then (1 : ℝ) else 0) - (if j ≤ k then 1 else 0)| :=
+        sum_le_sum fun k hk => hcut k (mem_range.mp hk)
+    _ = ∑ i ∈ range n, ∑ j ∈ range n, ∑ k ∈ range n,
+          π i j * |(if i ≤ k then (1 : ℝ) else 0) - (if j ≤ k then 1 else 0)| := by
+        rw [sum_comm]
+        apply sum_congr rfl
+        intro i _
+        rw [sum_comm]
+    _ = ∑ i ∈ range n, ∑ j ∈ range n, π i j * |(i : ℝ) - j| := by
+        apply sum_congr rfl
+        intro i hi
+        apply sum_congr rfl
+        intro j hj
+        rw [← mul_sum, cuts_abs n i j (mem_range.mp hi) (mem_range.mp hj)]
+
+/-! ### ② attainment: the monotone plan costs exactly `Σ |F_x − F_y|` -/
+
+/-- mass strictly below bucket `i` -/
+noncomputable def below (p : ℕ → ℝ) (i : ℕ) : ℝ := ∑ j ∈ range i, p j
+
+theorem below_succ (p : ℕ → ℝ) (i : ℕ) : below p (i + 1) = below p i + p i := by
+  unfold below; rw [sum_range_succ]
+
+theorem cdf_eq_below (p : ℕ → ℝ) (i : ℕ) : cdf p i = below p (i + 1) := rfl
+
+theorem below_mono (p : ℕ → ℝ) (hp : ∀ i, 0 ≤ p i) {i j : ℕ} (h : i ≤ j) : below p i ≤ below p j := by
+  unfold below
+  exact sum_le_sum_of_subset_of_nonneg (range_mono h) (fun k _ _ => hp k)
+
+theorem below_nonneg (p : ℕ → ℝ) (hp : ∀ i, 0 ≤ p i) (i : ℕ) : 0 ≤ below p i :=
+  sum_nonneg fun k _ => hp k
+
+/-- the monotone (north-west corner) plan: overlap of the mass intervals of `i` under `p` and `j` under `q` -/
+noncomputable def mono (p q : ℕ → ℝ) (i j : ℕ) : ℝ :=
+  max 0 (min (below p (i + 1)) (below q (j + 1)) - max (below p i) (below q j))
+
+theorem mono_swap (p q : ℕ → ℝ) (i j : ℕ) : mono p q i j = mono q p j i := by
+  unfold mono; rw [min_comm, max_comm (below p i)]
+
+/-- telescoping step: `|[u,v] ∩ [0,G']| − |[u,v] ∩ [0,G]| = |[u,v] ∩ [G,G']|` -/
+theorem overlap_step (u v G G' : ℝ) (huv : u ≤ v) (hG : G ≤ G') :
+    max 0 (min v G' - u) - max 0 (min v G - u) = max 0 (min v G' - max u G) := by
+  rcases le_total v G' with h1 | h1 <;> rcases le_total v G with h2 | h2 <;>
+    rcases le_total u G with h3 | h3 <;>
+    simp only [min_eq_left, min_eq_right, max_eq_left, max_eq_right, h1, h2, h3] <;>
+    (rcases le_total 0 (G' - u) with h4 | h4 <;> rcases le_total 0 (G - u) with h5 | h5 <;>
+      rcases le_total 0 (v - u) with h6 | h6 <;> rcases le_total 0 (v - G) with h7 | h7 <;>
+      rcases le_total 0 (G' - G) with h8 | h8 <;>
+      simp only [max_eq_left, max_eq_right, h4, h5, h6, h7, h8] <;> linarith)
+
+theorem mono_row_partial (p q : ℕ → ℝ) (hp : ∀ i, 0 ≤ p i) (hq : ∀ i, 0 ≤ q i) (i m : ℕ) :
+    ∑ j ∈ range m, mono p q i j = max 0 (min (below p (i + 1)) (below q m) - below p i) := by
+  induction m with
+  | zero =>
+    have h0 : below q 0 = 0 := by simp [below]
+    have : min (below p (i + 1)) 0 - below p i ≤ 0 := by
+      have := below_nonneg p hp i; have := min_le_right (below p (i + 1)) 0; linarith
+    simp [h0, max_eq_left this]
+  | succ m ih =>
+    rw [sum_range_succ, ih]
+    have huv : below p i ≤ below p (i + 1) := below_mono p hp (by omega)
+    have hG : below q m ≤ below q (m + 1) := below_mono q hq (by omega)
+    have := overlap_step (below p i) (below p (i + 1)) (below q m) (below q (m + 1)) huv hG
+    unfold mono
+    linarith
+
+theorem mono_row (n : ℕ) (p q : ℕ → ℝ) (hp : ∀ i, 0 ≤ p i) (hq : ∀ i, 0 ≤ q i)
+    (hsum : below p n = below q n) (i : ℕ) (hi : i < n) : ∑ j ∈ range n, mono p q i j = p i := by
+  rw [mono_row_partial p q hp hq i n]
+  have h1 : below p (i + 1) ≤ below q n := by rw [← hsum]; exact below_mono p hp (by omega)
+  rw [min_eq_left h1, below_succ]
+  have : 0 ≤ below p i + p i - below p i := by have := hp i; linarith
+  rw [max_eq_right this]; ring
+
+/-- indicator of "bucket `i` lies at or below the cut `k`" -/
+noncomputable def atOrBelow (k i : ℕ) : ℝ := if i ≤ k then 1 else 0
+
+/-- for a plan with marginals `p, q`: `F_p(k) − F_q(k)` is the net flow across the cut `k` -/
+theorem cut_identity (n : ℕ) (p q : ℕ → ℝ) (π : ℕ → ℕ → ℝ)
+    (hrow : ∀ i < n, ∑ j ∈ range n, π i j = p i) (hcol : ∀ j < n, ∑ i ∈ range n, π i j = q j)
+    (k : ℕ) (hk : k < n) :
+    cdf p k - cdf q k = ∑ i ∈ range n, ∑ j ∈ range n, π i j * (atOrBelow k i - atOrBelow k j) := by
+  have hp : cdf p k = ∑ i ∈ range n, ∑ j ∈ range n, π i j * atOrBelow k i := by
+    unfold cdf
+    rw [← sum_range_ite_le n k hk]
+    apply sum_congr rfl
+    intro i hi
+    rw [← hrow i (mem_range.mp hi)]
+    unfold atOrBelow
+    by_cases h : i ≤ k <;> simp [h]
+  have hq : cdf q k = ∑ i ∈ range n, ∑ j ∈ range n, π i j * atOrBelow k j := by
+    unfold cdf
+    rw [← sum_range_ite_le n k hk, sum_comm]
+    apply sum_congr rfl
+    intro j hj
+    rw [← hcol j (mem_range.mp hj)]
+    unfold atOrBelow
+    by_cases h : j ≤ k <;> simp [h]
+  rw [hp, hq, ← sum_sub_distrib]
+  apply sum_congr rfl; intro i _
+  rw [← sum_sub_distrib]
+  apply sum_congr rfl; intro j _; ring
+
+/-- summing the cut indicators over all cuts gives the ground distance `|i − j|` -/
+theorem cuts_exchange (n : ℕ) (π : ℕ → ℕ → ℝ) :
+    ∑ k ∈ range n, ∑ i ∈ range n, ∑ j ∈ range n, π i j * |atOrBelow k i - atOrBelow k j|
+      = ∑ i ∈ range n, ∑ j ∈ range n, π i j * |(i : ℝ) - j| := by
+  rw [sum_comm]
+  apply sum_congr rfl; intro i hi
+  rw [sum_comm]
+  apply sum_congr rfl; intro j hj
+  rw [← mul_sum]
+  congr 1
+  exact cuts_abs n i j (mem_range.mp hi) (mem_range.mp hj)
+
+/-- **② attained by the monotone plan**: for non-negative `p, q` of equal total mass the monotone plan is
+    feasible and its cost for the ground distance `|i − j|` is exactly `Σ_k |F_p(k) − F_q(k)|`. -/
+theorem C12_equity_attained (n : ℕ) (p q : ℕ → ℝ) (hp : ∀ i, 0 ≤ p i) (hq : ∀ i, 0 ≤ q i)
+    (hsum : ∑ i ∈ range n, p i = ∑ i ∈ range n, q i) :
+    (∀ i j, 0 ≤ mono p q i j) ∧
+    (∀ i < n, ∑ j ∈ range n, mono p q i j = p i) ∧
+    (∀ j < n, ∑ i ∈ range n, mono p q i j = q j) ∧
+    ∑ i ∈ range n, ∑ j ∈ range n, mono p q i j * |(i : ℝ) - j| = ∑ k ∈ range n, |cdf p k - cdf q k| := by
+  have hrow : ∀ i < n, ∑ j ∈ range n, mono p q i j = p i := mono_row n p q hp hq hsum
+  have hcol : ∀ j < n, ∑ i ∈ range n, mono p q i j = q j := by
+    intro j hj
+    have := mono_row n q p hq hp hsum.symm j hj
+    rw [← this]
+    exact sum_congr rfl fun i _ => mono_swap p q i j
+  refine ⟨fun i j => le_max_left _ _, hrow, hcol, ?_⟩
+  rw [← cuts_exchange]
+  apply sum_congr rfl
+  intro k hk
+  have hk' := mem_range.mp hk
+  rw [cut_identity n p q (mono p q) hrow hcol k hk']
+  -- the plan does not cross the cut in both directions
+  rcases le_total (cdf q k) (cdf p k) with hle | hle
+  · -- no mass goes from above the cut (i > k) to below it (j ≤ k)
+    have hzero : ∀ i j, k < i → j ≤ k → mono p q i j = 0 := by
+      intro i j hi hj
+      unfold mono
+      apply max_eq_left
+      have h1 : below q (j + 1) ≤ below q (k + 1) := below_mono q hq (by omega)
+      have h2 : below p (k + 1) ≤ below p i := below_mono p hp (by omega)
+      have h3 := min_le_right (below p (i + 1)) (below q (j + 1))
+      have h4 := le_max_left (below p i) (below q j)
+      rw [cdf_eq_below, cdf_eq_below] at hle
+      linarith
+    have hterm : ∀ i j, mono p q i j * (atOrBelow k i - atOrBelow k j)
+        = mono p q i j * |atOrBelow k i - atOrBelow k j| := by
+      intro i j
+      unfold atOrBelow
+      by_cases h1 : i ≤ k <;> by_cases h2 : j ≤ k
+      · simp [h1, h2]
+      · simp [h1, h2]
+      · simp [h1, h2, hzero i j (by omega) h2]
+      · simp [h1, h2]
+    rw [abs_of_nonneg]
+    · exact sum_congr rfl fun i _ => sum_congr rfl fun j _ => (hterm i j).symm
+    · apply sum_nonneg; intro i _; apply sum_nonneg; intro j _
+      rw [hterm]; exact mul_nonneg (le_max_left _ _) (abs_nonneg _)
+  · -- no mass goes from below the cut (i ≤ k) to above it (j > k)
+    have hzero : ∀ i j, i ≤ k → k < j → mono p q i j = 0 := by
+      intro i j hi hj
+      unfold mono
+      apply max_eq_left
+      have h1 : below p (i + 1) ≤ below p (k + 1) := below_mono p hp (by omega)
+      have h2 : below q (k + 1) ≤ below q j := below_mono q hq (by omega)
+      have h3 := min_le_left (below p (i + 1)) (below q (j + 1))
+      have h4 := le_max_right (below p i) (below q j)
+      rw [cdf_eq_below, cdf_eq_below] at hle
+      linarith
+    have hterm : ∀ i j, -(mono p q i j * (atOrBelow k i - atOrBelow k j))
+        = mono p q i j * |atOrBelow k i - atOrBelow k j| := by
+      intro i j
+      unfold atOrBelow
+      by_cases h1 : i ≤ k <;> by_cases h2 : j ≤ k
+      · simp [h1, h2]
+      · simp [h1, h2, hzero i j h1 (by omega)]
+      · simp [h1, h2]
+      · simp [h1, h2]
+    rw [abs_of_nonpos, ← sum_neg_distrib]
+    · apply sum_congr rfl; intro i _
+      rw [← sum_neg_distrib]
+      exact sum_congr rfl fun j _ => (hterm i j).symm
+    · have : 0 ≤ -(∑ i ∈ range n, ∑ j ∈ range n, mono p q i j * (atOrBelow k i - atOrBelow k j)) := by
+        rw [← sum_neg_distrib]
+        apply sum_nonneg; intro i _
+        rw [← sum_neg_distrib]
+        apply sum_nonneg; intro j _
+        rw [hterm]; exact mul_nonneg (le_max_left _ _) (abs_nonneg _)
+      linarith
+
+/-- **`Σ_k |F_p(k) − F_q(k)|` is the exact optimal transport cost** for the ground distance `|i − j|`:
+    a lower bound for every feasible plan (`C12_equity_lower_bound`) that the monotone plan attains. -/
+theorem C12_equity_is_w1 (n : ℕ) (p q : ℕ → ℝ) (hp : ∀ i, 0 ≤ p i) (hq : ∀ i, 0 ≤ q i)
+    (hsum : ∑ i ∈ range n, p i = ∑ i ∈ range n, q i) :
+    (∃ π : ℕ → ℕ → ℝ, (∀ i j, 0 ≤ π i j) ∧ (∀ i < n, ∑ j ∈ range n, π i j = p i) ∧
+        (∀ j < n, ∑ i ∈ range n, π i j = q j) ∧
+        ∑ i ∈ range n, ∑ j ∈ range n, π i j * |(i : ℝ) - j| = ∑ k ∈ range n, |cdf p k - cdf q k|) ∧
+    (∀ π : ℕ → ℕ → ℝ, (∀ i j, 0 ≤ π i j) → (∀ i < n, ∑ j ∈ range n, π i j = p i) →
+        (∀ j < n, ∑ i ∈ range n, π i j = q j) →
+        ∑ k ∈ range n, |cdf p k - cdf q k| ≤ ∑ i ∈ range n, ∑ j ∈ range n, π i j * |(i : ℝ) - j|) := by
+  obtain ⟨h1, h2, h3, h4⟩ := C12_equity_attained n p q hp hq hsum
+  exact ⟨⟨mono p q, h1, h2, h3, h4⟩, fun π hπ hr hc => C12_equity_lower_bound n p q π hπ hr hc⟩
+
+/-! ### the statements for `Equity::variation` on histograms -/
+
+/-- bucket densities of a histogram over the river grid -/
+noncomputable def riverPdf (x : Hist) (i : ℕ) : ℝ := density x (riverCode i)
+
+theorem variation_eq (x y : Hist) :
+    (variation x y : ℝ) = variationOn RP.Gen.C12.equityBuckets (riverPdf x) (riverPdf y) := rfl
+
+/-- the grid has `equityGrid + 1 = 101` buckets (generated constants) -/
+theorem buckets_eq : RP.Gen.C12.equityBuckets = RP.Gen.C12.equityGrid + 1 := by decide
+
+/-- `Equity::distance` between river buckets `i, j ≤ 100` is `|i − j| / 100`: the ground distance of `W₁` -/
+theorem river_index : ∀ i < RP.Gen.C12.equityBuckets, indexOf (riverCode i) = i := by decide +kernel
+
+theorem equity_ground_distance (i j : ℕ) (hi : i < RP.Gen.C12.equityBuckets) (hj : j < RP.Gen.C12.equityBuckets) :
+    (equityDistance (riverCode i) (riverCode j) : ℝ) = |(i : ℝ) - j| / RP.Gen.C12.equityGrid := by
+  simp only [equityDistance, floatize, R_abs, R_sub, R_div, R_ofNat, river_index i hi, river_index j hj]
+  rw [← sub_div, abs_div]
+  congr 1
+  exact abs_of_nonneg (Nat.cast_nonneg _)
+
+theorem riverCode_inj (i j : ℕ) (hi : i < RP.Gen.C12.equityBuckets) (hj : j < RP.Gen.C12.equityBuckets)
+    (h : riverCode i = riverCode j) : i = j := by
+  have := river_index i hi
+  rw [h, river_index j hj] at this
+  exact this.symm
+
+/-- an equity histogram — valid, with every key one of the 101 river buckets — is a probability
+    vector over the grid: this discharges the hypotheses `hx`, `hy` of `C12_equity` -/
+theorem riverPdf_total (x : Hist) (hv : x.Valid)
+    (hsup : ∀ e ∈ x.counts, ∃ i < RP.Gen.C12.equityBuckets, e.1 = riverCode i) :
+    ∑ i ∈ range RP.Gen.C12.equityBuckets, riverPdf x i = 1 := by
+  have hS : ∀ l : List (Nat × Nat), (∀ e ∈ l, ∃ i < RP.Gen.C12.equityBuckets, e.1 = riverCode i) →
+      ∑ i ∈ range RP.Gen.C12.equityBuckets, keySum l (riverCode i) = (l.map Prod.snd).sum := by
+    intro l
+    induction l with
+    | nil => intro _; simp [keySum]
+    | cons e es ih =>
+      intro hl
+      obtain ⟨i0, hi0, he0⟩ := hl e (by simp)
+      have hstep : ∀ i ∈ range RP.Gen.C12.equityBuckets,
+          keySum (e :: es) (riverCode i) = (if i = i0 then e.2 else 0) + keySum es (riverCode i) := by
+        intro i hi
+        have hin := mem_range.mp hi
+        unfold keySum
+        by_cases h : i = i0
+        · subst h; simp [List.filter_cons, he0]
+        · have hne : e.1 ≠ riverCode i := by
+            rw [he0]; intro h'; exact h (riverCode_inj i i0 hin hi0 h'.symm)
+          have hb : (e.1 == riverCode i) = false := by simpa using hne
+          simp [List.filter_cons, hb, h]
+      rw [sum_congr rfl hstep, sum_add_distrib, ih (fun e he => hl e (by simp [he]))]
+      rw [sum_ite_eq' (range RP.Gen.C12.equityBuckets) i0 (fun _ => e.2)]
+      simp [mem_range.mpr hi0]
+  have hcount : ∀ i, (riverPdf x i : ℝ) = (keySum x.counts (riverCode i) : ℕ) / (x.mass : ℝ) := fun i => by
+    simp only [riverPdf, density, R_div, R_ofNat, Hist.count]
+    rw [keySum_eq_lookup x.counts hv.wf]
+  simp only [hcount, div_eq_mul_inv]
+  rw [← Finset.sum_mul, ← Nat.cast_sum, hS x.counts hsup, ← hv.mass_eq]
+  exact mul_inv_cancel₀ (by exact_mod_cast (ne_of_gt hv.mass_pos))
+
+/-- **① `C12_equity`** — for two histograms that are probability vectors over the 101 river buckets:
+    `variation = (100/101) · Σ_{i<100} |F_x(i) − F_y(i)| / 100`, it is symmetric, satisfies the triangle
+    inequality, is zero iff the bucket densities coincide, and `Σ_{i<100} |F_x(i) − F_y(i)| / 100` is a
+    lower bound for the cost of every feasible plan under the ground distance `|i − j|/100`. -/
+theorem C12_equity (x y z : Hist)
+    (hx : ∑ i ∈ range RP.Gen.C12.equityBuckets, riverPdf x i = 1)
+    (hy : ∑ i ∈ range RP.Gen.C12.equityBuckets, riverPdf y i = 1) :
+    (variation x y : ℝ) = (100 / 101) * ((∑ i ∈ range 100, |cdf (riverPdf x) i - cdf (riverPdf y) i|) / 100) ∧
+    (variation x y : ℝ) = variation y x ∧
+    ((variation x y : ℝ) = 0 ↔ ∀ i < 101, riverPdf x i = riverPdf y i) ∧
+    (variation x z : ℝ) ≤ variation x y + variation y z ∧
+    ∀ π : ℕ → ℕ → ℝ, (∀ i j, 0 ≤ π i j) →
+      (∀ i < 101, ∑ j ∈ range 101, π i j = riverPdf x i) →
+      (∀ j < 101, ∑ i ∈ range 101, π i j = riverPdf y j) →
+      (∑ i ∈ range 100, |cdf (riverPdf x) i - cdf (riverPdf y) i|) / 100
+        ≤ ∑ i ∈ range 101, ∑ j ∈ range 101, π i j * (equityDistance (riverCode i) (riverCode j) : ℝ) := by
+  have hb : RP.Gen.C12.equityBuckets = 100 + 1 := by decide
+  simp only [variation_eq, hb] at hx hy ⊢
+  refine ⟨?_, C12_equity_symm _ _ _, C12_equity_zero_iff _ (by omega) _ _, C12_equity_triangle _ _ _ _, ?_⟩
+  · have := C12_equity_w1_factor 100 (by omega) (riverPdf x) (riverPdf y) (by rw [hx, hy])
+    rw [this]; norm_num
+  · intro π hπ hrow hcol
+    have hlb := C12_equity_lower_bound 101 (riverPdf x) (riverPdf y) π hπ hrow hcol
+    rw [sum_range_succ] at hlb
+    have hlast : cdf (riverPdf x) 100 - cdf (riverPdf y) 100 = 0 := by
+      unfold cdf; rw [hx, hy]; ring
+    rw [hlast, abs_zero, add_zero] at hlb
+    have hg : ∀ i ∈ range 101, ∀ j ∈ range 101,
+        π i j * (equityDistance (riverCode i) (riverCode j) : ℝ) = π i j * |(i : ℝ) - j| * (1 / 100) := by
+      intro i hi j hj
+      rw [equity_ground_distance i j (by rw [hb]; exact mem_range.mp hi) (by rw [hb]; exact mem_range.mp hj)]
+      have : ((RP.Gen.C12.equityGrid : ℕ) : ℝ) = 100 := by
+        have : RP.Gen.C12.equityGrid = 100 := by decide
+        rw [this]; norm_num
+      rw [this]; ring
+    rw [sum_congr rfl fun i hi => sum_congr rfl fun j hj => hg i hi j hj]
+    have hdiv : ∑ i ∈ range 101, ∑ j ∈ range 101, π i j * |(i : ℝ) - j| * (1 / 100)
+        = (∑ i ∈ range 101, ∑ j ∈ range 101, π i j * |(i : ℝ) - j|) * (1 / 100) := by
+      rw [Finset.sum_mul]; apply sum_congr rfl; intro i _; rw [Finset.sum_mul]
+    rw [hdiv, div_eq_mul_one_div]
+    exact mul_le_mul_of_nonneg_right hlb (by norm_num)
+
+theorem river_cost (π : ℕ → ℕ → ℝ) :
+    ∑ i ∈ range 101, ∑ j ∈ range 101, π i j * (equityDistance (riverCode i) (riverCode j) : ℝ)
+      = (∑ i ∈ range 101, ∑ j ∈ range 101, π i j * |(i : ℝ) - j|) * (1 / 100) := by
+  have hb : RP.Gen.C12.equityBuckets = 100 + 1 := by decide
+  have hg : ∀ i ∈ range 101, ∀ j ∈ range 101,
+      π i j * (equityDistance (riverCode i) (riverCode j) : ℝ) = π i j * |(i : ℝ) - j| * (1 / 100) := by
+    intro i hi j hj
+    rw [equity_ground_distance i j (by rw [hb]; exact mem_range.mp hi) (by rw [hb]; exact mem_range.mp hj)]
+    have : ((RP.Gen.C12.equityGrid : ℕ) : ℝ) = 100 := by
+      have : RP.Gen.C12.equityGrid = 100 := by decide
+      rw [this]; norm_num
+    rw [this]; ring
+  rw [sum_congr rfl fun i hi => sum_congr rfl fun j hj => hg i hi j hj]
+  rw [Finset.sum_mul]; apply sum_congr rfl; intro i _; rw [Finset.sum_mul]
+
+theorem riverPdf_nonneg (x : Hist) (i : ℕ) : 0 ≤ riverPdf x i := by
+  simp only [riverPdf, density, R_div, R_ofNat]
+  exact div_nonneg (Nat.cast_nonneg _) (Nat.cast_nonneg _)
+
+/-- **② `C12_equity_w1`** — `Equity::variation` is exactly `100/101` times the one-dimensional Wasserstein
+    distance `W` on the percent grid: `W` is attained by a feasible plan (the monotone one) under the
+    real ground distance `Equity::distance`, and no feasible plan is cheaper. -/
+theorem C12_equity_w1 (x y : Hist)
+    (hx : ∑ i ∈ range RP.Gen.C12.equityBuckets, riverPdf x i = 1)
+    (hy : ∑ i ∈ range RP.Gen.C12.equityBuckets, riverPdf y i = 1) :
+    ∃ W : ℝ, (variation x y : ℝ) = (100 / 101) * W ∧
+      (∃ π : ℕ → ℕ → ℝ, (∀ i j, 0 ≤ π i j) ∧ (∀ i < 101, ∑ j ∈ range 101, π i j = riverPdf x i) ∧
+        (∀ j < 101, ∑ i ∈ range 101, π i j = riverPdf y j) ∧
+        ∑ i ∈ range 101, ∑ j ∈ range 101, π i j * (equityDistance (riverCode i) (riverCode j) : ℝ) = W) ∧
+      (∀ π : ℕ → ℕ → ℝ, (∀ i j, 0 ≤ π i j) → (∀ i < 101, ∑ j ∈ range 101, π i j = riverPdf x i) →
+        (∀ j < 101, ∑ i ∈ range 101, π i j = riverPdf y j) →
+        W ≤ ∑ i ∈ range 101, ∑ j ∈ range 101, π i j * (equityDistance (riverCode i) (riverCode j) : ℝ)) := by
+  obtain ⟨h1, _, _, _, h5⟩ := C12_equity x y y hx hy
+  refine ⟨(∑ i ∈ range 100, |cdf (riverPdf x) i - cdf (riverPdf y) i|) / 100, h1, ?_, h5⟩
+  have hb : RP.Gen.C12.equityBuckets = 100 + 1 := by decide
+  rw [hb] at hx hy
+  obtain ⟨a1, a2, a3, a4⟩ := C12_equity_attained 101 (riverPdf x) (riverPdf y)
+    (riverPdf_nonneg x) (riverPdf_nonneg y) (by rw [hx, hy])
+  refine ⟨mono (riverPdf x) (riverPdf y), a1, a2, a3, ?_⟩
+  rw [river_cost, a4, sum_range_succ]
+  have hlast : cdf (riverPdf x) 100 - cdf (riverPdf y) 100 = 0 := by
+    unfold cdf; rw [hx, hy]; ring
+  rw [hlast, abs_zero, add_zero]; ring
+
+end equity
+
+/-! ## Greedy plan (`Heuristic::minimize`) -/
+section greedy
+
+theorem massAt_map_keys (l : List (Nat × Nat)) (hs : SortedKeys l) (f : Nat → ℝ) (a : Nat) :
+    massAt (l.map fun kc => (kc.1, f kc.1)) a = if (l.lookup a).isSome then f a else 0 := by
+  induction l with
+  | nil => simp [massAt]
+  | cons e es ih =>
+    obtain ⟨k, c⟩ := e
+    unfold SortedKeys at hs
+    rw [List.pairwise_cons] at hs
+    simp only [List.map_cons, massAt_cons]
+    by_cases h : k = a
+    · subst h
+      have hnone : es.lookup k = none :=
+        lookup_none_of_all_ne k es (fun e he => by have := hs.1 e he; simp at this; omega)
+      rw [ih hs.2, hnone]
+      simp [List.lookup_cons]
+    · have hb : (a == k) = false := by simpa using fun h' : a = k => h h'.symm
+      simp only [h, if_false, zero_add, List.lookup_cons, hb]
+      exact ih hs.2
+
+/-- the initial pile `Potential::normalize(h)` carries exactly the density of `h` under every key -/
+theorem massAt_normalize (h : Hist) (hw : h.WF) (a : Nat) : massAt (normalize h) a = density h a := by
+  unfold Transport.normalize
+  rw [massAt_map_keys h.counts hw (fun k => density h k) a]
+  cases hl : h.counts.lookup a with
+  | some c => simp
+  | none => simp [density, Hist.count, hl]
+
+theorem normalize_nonneg (h : Hist) : NonNeg (normalize h) := by
+  intro e he
+  simp only [Transport.normalize, List.mem_map] at he
+  obtain ⟨kc, _, rfl⟩ := he
+  simp only [density, R_div, R_ofNat]
+  exact div_nonneg (Nat.cast_nonneg _) (Nat.cast_nonneg _)
+
+theorem total_normalize (h : Hist) (hv : h.Valid) : total (normalize h) = 1 := by
+  unfold total Transport.normalize
+  rw [List.map_map]
+  exact density_total h hv
+
+/-- **① greedy plan, invariants** — for any non-negative initial pile and sink (total distance function,
+    exact arithmetic) `Heuristic::minimize` terminates within its fuel without a panic; the recorded plan
+    `P` (the list of moves) has non-negative entries; its row sums never exceed the source masses and its
+    column sums never exceed the sink masses (what is left is exactly the remaining pile / sink); the stored
+    `cost()` is the plan's cost `Σ P·d`; it stops only when the sources or the sinks are exhausted; and when
+    the two total masses agree **all** source mass is placed and every sink is exactly filled. -/
+theorem C12_greedy_invariant (δ : Nat → Nat → ℝ) (d : Nat → Nat → Option ℝ) (hd : ∀ x y, d x y = some (δ x y))
+    (pile sink : Pot ℝ) (hp : NonNeg pile) (hs : NonNeg sink) :
+    ∃ g, greedyLoop d (pile.length + sink.length + 1) ⟨pile, sink, [], []⟩ = some g ∧
+      (∀ s ∈ g.steps, 0 ≤ s.2.2) ∧
+      (∀ a, rowOf g.steps a ≤ massAt pile a ∧ rowOf g.steps a = massAt pile a - massAt g.pile a) ∧
+      (∀ b, colOf g.steps b ≤ massAt sink b ∧ colOf g.steps b = massAt sink b - massAt g.sink b) ∧
+      greedyCost g = stepsCost δ g.steps ∧
+      (npos g.pile = 0 ∨ npos g.sink = 0) ∧
+      (total pile = total sink →
+        (∀ a, rowOf g.steps a = massAt pile a) ∧ (∀ b, colOf g.steps b = massAt sink b)) := by
+  have hfuel : npos pile + npos sink < pile.length + sink.length + 1 := by
+    have := npos_le_length pile; have := npos_le_length sink; omega
+  obtain ⟨g, hg, inv, hdone⟩ := greedyLoop_spec δ d hd pile sink _ ⟨pile, sink, [], []⟩
+    (LoopInv.init δ pile sink hp hs) hfuel
+  refine ⟨g, hg, inv.steps_nonneg, ?_, ?_, ?_, hdone, ?_⟩
+  · intro a
+    have h1 := inv.rows a
+    have h2 := massAt_nonneg g.pile inv.pile_nonneg a
+    exact ⟨by linarith, by linarith⟩
+  · intro b
+    have h1 := inv.cols b
+    have h2 := massAt_nonneg g.sink inv.sink_nonneg b
+    exact ⟨by linarith, by linarith⟩
+  · simp only [greedyCost, sum_eq]; exact inv.cost
+  · intro heq
+    have hbal := inv.balance
+    have hboth : (∀ e ∈ g.pile, e.2 = 0) ∧ (∀ e ∈ g.sink, e.2 = 0) := by
+      rcases hdone with h | h
+      · have hz := all_zero_of_npos g.pile inv.pile_nonneg h
+        have ht := total_zero_of_all g.pile hz
+        exact ⟨hz, all_zero_of_total g.sink inv.sink_nonneg (by linarith)⟩
+      · have hz := all_zero_of_npos g.sink inv.sink_nonneg h
+        have ht := total_zero_of_all g.sink hz
+        exact ⟨all_zero_of_total g.pile inv.pile_nonneg (by linarith), hz⟩
+    constructor
+    · intro a
+      have h1 := inv.rows a
+      rw [massAt_zero_of_all g.pile hboth.1 a] at h1; linarith
+    · intro b
+      have h1 := inv.cols b
+      rw [massAt_zero_of_all g.sink hboth.2 b] at h1; linarith
+
+/-- a feasible transport plan between `μ` and `ν`, as a list of moves `(x, y, mass)` -/
+def Feasible (μ ν : Nat → ℝ) (Q : List (Nat × Nat × ℝ)) : Prop :=
+  (∀ s ∈ Q, 0 ≤ s.2.2) ∧ (∀ a, rowOf Q a = μ a) ∧ (∀ b, colOf Q b = ν b)
+
+/-- **① greedy plan is feasible** — between two histograms (each of total mass one) the greedy plan
+    places all source mass: its row sums are `μ`, its column sums are `ν`, entries `≥ 0`, and
+    `Heuristic::cost()` is its transport cost. -/
+theorem C12_greedy_feasible (δ : Nat → Nat → ℝ) (d : Nat → Nat → Option ℝ) (hd : ∀ x y, d x y = some (δ x y))
+    (source target : Hist) (hs : source.Valid) (ht : target.Valid) :
+    ∃ g, greedy d source target = some g ∧
+      Feasible (fun a => density source a) (fun b => density target b) g.steps ∧
+      greedyCost g = stepsCost δ g.steps := by
+  obtain ⟨g, hg, h1, _, _, h4, _, h6⟩ := C12_greedy_invariant δ d hd (normalize source) (normalize target)
+    (normalize_nonneg source) (normalize_nonneg target)
+  obtain ⟨hr, hc⟩ := h6 (by rw [total_normalize source hs, total_normalize target ht])
+  refine ⟨g, hg, ⟨h1, ?_, ?_⟩, h4⟩
+  · intro a; rw [hr a, massAt_normalize source hs.wf a]
+  · intro b; rw [hc b, massAt_normalize target ht.wf b]
+
+/-- **① greedy cost ≥ optimum** — the greedy cost is the cost of a feasible plan, hence at least any
+    lower bound on the cost of feasible plans, in particular the optimal transport cost. -/
+theorem C12_greedy_ge_opt (δ : Nat → Nat → ℝ) (d : Nat → Nat → Option ℝ) (hd : ∀ x y, d x y = some (δ x y))
+    (source target : Hist) (hs : source.Valid) (ht : target.Valid) (opt : ℝ)
+    (hopt : ∀ Q, Feasible (fun a => density source a) (fun b => density target b) Q → opt ≤ stepsCost δ Q) :
+    ∃ g, greedy d source target = some g ∧ opt ≤ greedyCost g := by
+  obtain ⟨g, hg, hf, hc⟩ := C12_greedy_feasible δ d hd source target hs ht
+  exact ⟨g, hg, by rw [hc]; exact hopt _ hf⟩
+
+/-- non-vacuity: two concrete histograms over learned buckets 1, 2 and 2, 3 are valid, so the greedy
+    theorems apply to them with any distance function -/
+example : (⟨3, [(2 ^ 64 + 1, 1), (2 ^ 64 + 2, 2)]⟩ : Hist).Valid :=
+  ⟨by simp [Hist.WF, SortedKeys], by decide, by decide, by simp⟩
+
+example (δ : Nat → Nat → ℝ) : ∃ g,
+    greedy (fun x y => some (δ x y)) ⟨3, [(2 ^ 64 + 1, 1), (2 ^ 64 + 2, 2)]⟩ ⟨2, [(2 ^ 64 + 2, 1), (2 ^ 64 + 3, 1)]⟩ = some g ∧
+    greedyCost g = stepsCost δ g.steps :=
+  let ⟨g, h1, _, h3⟩ := C12_greedy_feasible δ _ (fun _ _ => rfl) _ _
+    ⟨by simp [Hist.WF, SortedKeys], by decide, by decide, by simp⟩
+    ⟨by simp [Hist.WF, SortedKeys], by decide, by decide, by simp⟩
+  ⟨g, h1, h3⟩
+
+end greedy
+
+/-! ## the Sinkhorn loop never fails over ℝ (non-vacuity of `C12_sinkhorn_plan`) -/
+
+theorem skLoop_total (d : Nat → Nat → ℝ) (T tol : ℝ) (mu nu : Hist) (n : Nat) (s : SK ℝ) :
+    ∃ s', skLoop d T tol mu nu n s = some s' := by
+  induction n generalizing s with
+  | zero => exact ⟨s, rfl⟩
+  | succ n ih =>
+    have hfin : ∀ p : Pot ℝ, allFinite p = true := by
+      intro p; simp [allFinite]
+    simp only [skLoop, skIter, hfin, if_true]
+    split
+    · exact ⟨_, rfl⟩
+    · exact ih _
+
+/-- over ℝ `minimize` returns a plan whenever both histograms are non-empty and the metric knows
+    every pair of the two supports -/
+theorem minimize_total (T tol : ℝ) (n : Nat) (m : Metric ℝ) (mu nu : Hist)
+    (hmu : mu.counts ≠ []) (hnu : nu.counts ≠ []) (hcov : m.covers mu.support nu.support = true) :
+    ∃ s, minimize T tol n m mu nu = some s := by
+  unfold minimize
+  have h1 : (mu.counts.isEmpty || nu.counts.isEmpty) = false := by
+    cases hm : mu.counts with
+    | nil => exact absurd hm hmu
+    | cons _ _ =>
+      cases hn : nu.counts with
+      | nil => exact absurd hn hnu
+      | cons _ _ => rfl
+  simp only [h1, Bool.false_eq_true, if_false, hcov, if_true]
+  exact skLoop_total ..
+
+/-! ## ② the entropic allowance -/
+section entropic
+open Finset RP.Entropic
+
+theorem sum_flatMap_R {γ : Type} (l : List γ) (f : γ → List ℝ) :
+    (l.flatMap f).sum = (l.map fun x => (f x).sum).sum := by
+  induction l with
+  | nil => rfl
+  | cons x xs ih => simp [List.flatMap_cons, ih]
+
+/-- the plan of a state, indexed by positions in the two supports -/
+noncomputable def planFin (d : Nat → Nat → ℝ) (T : ℝ) (s : SK ℝ) (i : Fin s.lhs.length) (j : Fin s.rhs.length) : ℝ :=
+  coupling d T (s.lhs[i.1]).1 (s.lhs[i.1]).2 (s.rhs[j.1]).1 (s.rhs[j.1]).2
+
+/-- the ground cost between the `i`-th source and the `j`-th target bucket -/
+noncomputable def costFin (d : Nat → Nat → ℝ) (s : SK ℝ) (i : Fin s.lhs.length) (j : Fin s.rhs.length) : ℝ :=
+  d (s.lhs[i.1]).1 (s.rhs[j.1]).1
+
+theorem planFin_gibbs (d : Nat → Nat → ℝ) (T : ℝ) (s : SK ℝ) :
+    planFin d T s = gibbs T (fun i => (s.lhs[i.1]).2) (fun j => (s.rhs[j.1]).2) (costFin d s) := by
+  funext i j
+  simp only [planFin, coupling, gibbs, costFin, R_exp, R_sub, R_add, reg, R_div]
+
+/-- `Sinkhorn::cost()` is the plan's transport cost `Σ_{i,j} P(i,j)·C(i,j)` (and never fails over ℝ) -/
+theorem cost_eq_fin (d : Nat → Nat → ℝ) (T : ℝ) (s : SK ℝ) :
+    cost d T s = some (∑ i, ∑ j, planFin d T s i j * costFin d s i j) := by
+  unfold cost
+  have hfin : (flows d T s).all Arith.finite = true := by simp [List.all_eq_true]
+  simp only [hfin, if_true]
+  simp only [sum_eq, flows, sum_flatMap_R]
+  congr 1
+  rw [← Fin.sum_univ_fun_getElem s.lhs (fun xf => (s.rhs.map fun yg => flow d T xf.1 xf.2 yg.1 yg.2).sum)]
+  apply sum_congr rfl; intro i _
+  rw [← Fin.sum_univ_fun_getElem s.rhs (fun yg => flow d T (s.lhs[i.1]).1 (s.lhs[i.1]).2 yg.1 yg.2)]
+  apply sum_congr rfl; intro j _
+  simp only [flow, R_mul, planFin, costFin]
+
+theorem planFin_total (d : Nat → Nat → ℝ) (T : ℝ) (s : SK ℝ) :
+    ∑ i, ∑ j, planFin d T s i j = (s.rhs.map (colSum d T s)).sum := by
+  rw [sum_comm, ← Fin.sum_univ_fun_getElem s.rhs (colSum d T s)]
+  apply sum_congr rfl; intro j _
+  unfold colSum
+  rw [← Fin.sum_univ_fun_getElem s.lhs (fun xf => coupling d T xf.1 xf.2 (s.rhs[j.1]).1 (s.rhs[j.1]).2)]
+  rfl
+
+/- Full statement of DESIGN's `C12_entropic` (NOT proved here; its last step is missing):
+     OT(μ,ν) − ½‖μ−μ'‖₁ ≤ cost ≤ OT(μ,ν) + ½‖μ−μ'‖₁ + T·min(H(μ'),H(ν)),   μ' = row sums of the plan.
+   Proved below: the band relative to the plan's own source marginal μ',
+     OT(μ',ν) ≤ cost ≤ OT(μ',ν) + T·min(H(μ'),H(ν)).
+   Missing: the stability of the optimal cost in the source marginal, |OT(μ,ν) − OT(μ',ν)| ≤ ½‖μ−μ'‖₁
+   for costs in [0,1]. The search oracle checks the full band against an exact solver on every run. -/
+
+/-- **② `C12_entropic_partial`** — the plan `P` returned by `minimize` (temperature `T > 0`, at least one
+    iteration, valid target histogram) is itself a feasible plan between its own row sums `μ'` and its
+    column sums, its `cost()` is `Σ P·C`, and for EVERY plan `Q ≥ 0` with the same row and column sums —
+    in particular the optimal one — `cost ≤ Σ Q·C + T · min(H(μ'), H(columns))`.
+    Hence `OT(μ', cols) ≤ cost ≤ OT(μ', cols) + T·min(H(μ'), H(cols))`. -/
+theorem C12_entropic_partial (T tol : ℝ) (hT : 0 < T) (n : Nat) (m : Metric ℝ) (mu nu : Hist) (hnu : nu.Valid)
+    (s : SK ℝ) (h : minimize T tol (n + 1) m mu nu = some s)
+    (Q : Fin s.lhs.length → Fin s.rhs.length → ℝ) (hQ : ∀ i j, 0 ≤ Q i j)
+    (hrow : ∀ i, ∑ j, Q i j = ∑ j, planFin m.distD T s i j)
+    (hcol : ∀ j, ∑ i, Q i j = ∑ i, planFin m.distD T s i j) :
+    ∃ c, cost m.distD T s = some c ∧ c = ∑ i, ∑ j, planFin m.distD T s i j * costFin m.distD s i j ∧
+      c ≤ (∑ i, ∑ j, Q i j * costFin m.distD s i j)
+          + T * min (ent fun i => ∑ j, planFin m.distD T s i j) (ent fun j => ∑ i, planFin m.distD T s i j) := by
+  refine ⟨_, cost_eq_fin m.distD T s, rfl, ?_⟩
+  obtain ⟨_, _, hkr, _, hle, _⟩ := C12_sinkhorn_plan T tol n m mu nu hnu s h
+  have hmass : ∑ i, ∑ j, planFin m.distD T s i j ≤ 1 := by
+    rw [planFin_total]
+    have h1 : (s.rhs.map (colSum m.distD T s)).sum ≤ (s.rhs.map fun yg => (density nu yg.1 : ℝ)).sum := by
+      apply List.sum_le_sum
+      intro yg hyg; exact hle yg hyg
+    have h2 : (s.rhs.map fun yg => (density nu yg.1 : ℝ)) = (s.rhs.map Prod.fst).map fun y => (density nu y : ℝ) := by
+      simp [List.map_map, Function.comp_def]
+    rw [h2, hkr] at h1
+    simp only [Hist.support, List.map_map, Function.comp_def] at h1
+    rw [density_total nu hnu] at h1
+    exact h1
+  rw [planFin_gibbs] at hrow hcol hmass ⊢
+  exact gibbs_cost_le T hT _ _ _ Q hQ hrow hcol hmass
+
+/-- source / target densities and the plan's row sums, indexed by position in the supports -/
+noncomputable def muFin (mu : Hist) (s : SK ℝ) (i : Fin s.lhs.length) : ℝ := density mu (s.lhs[i.1]).1
+noncomputable def nuFin (nu : Hist) (s : SK ℝ) (j : Fin s.rhs.length) : ℝ := density nu (s.rhs[j.1]).1
+noncomputable def rowFin (d : Nat → Nat → ℝ) (T : ℝ) (s : SK ℝ) (i : Fin s.lhs.length) : ℝ :=
+  ∑ j, planFin d T s i j
+/-- the mass the plan misplaces on the source side: `½‖μ − μ'‖₁` -/
+noncomputable def misplaced (d : Nat → Nat → ℝ) (T : ℝ) (mu : Hist) (s : SK ℝ) : ℝ :=
+  (1 / 2) * ∑ i, |muFin mu s i - rowFin d T s i|
+/-- `Q` is a transport plan between the two histograms (on the supports of the state) -/
+def FeasibleFin (mu nu : Hist) (s : SK ℝ) (Q : Fin s.lhs.length → Fin s.rhs.length → ℝ) : Prop :=
+  (∀ i j, 0 ≤ Q i j) ∧ (∀ i, ∑ j, Q i j = muFin mu s i) ∧ (∀ j, ∑ i, Q i j = nuFin nu s j)
+
+/-- **② `C12_entropic`** — the near-optimality band of the property statement, in exact arithmetic and
+    when no exponential is clamped (so the columns are exactly `ν` and the total mass is one):
+    with `μ(i), ν(j)` the two histograms on their supports, `μ'` the row sums of the Sinkhorn plan,
+    `mis = ½‖μ − μ'‖₁` the mass misplaced on the source side and a ground cost in `[0, 1]`,
+    * for every feasible plan `Q` between `μ` and `ν` (in particular the optimal one):
+      `cost ≤ ⟨Q, C⟩ + mis + T · min(H(μ'), H(ν))`;
+    * every lower bound `L` on the cost of feasible plans (in particular the optimum) satisfies
+      `L − mis ≤ cost`. -/
+theorem C12_entropic (T tol : ℝ) (hT : 0 < T) (n : Nat) (m : Metric ℝ) (mu nu : Hist)
+    (hmu : mu.Valid) (hnu : nu.Valid) (s : SK ℝ) (h : minimize T tol (n + 1) m mu nu = some s)
+    (hclamp : ∀ yg ∈ s.rhs, ∀ xf ∈ s.lhs, minPosR ≤ eTerm m.distD T yg.1 xf)
+    (hC0 : ∀ i j, 0 ≤ costFin m.distD s i j) (hC1 : ∀ i j, costFin m.distD s i j ≤ 1) :
+    ∃ c, cost m.distD T s = some c ∧
+      (∀ Q, FeasibleFin mu nu s Q →
+        c ≤ (∑ i, ∑ j, Q i j * costFin m.distD s i j) + misplaced m.distD T mu s
+            + T * min (ent (rowFin m.distD T s)) (ent (nuFin nu s))) ∧
+      (∀ L : ℝ, (∀ Q, FeasibleFin mu nu s Q → L ≤ ∑ i, ∑ j, Q i j * costFin m.distD s i j) →
+        L - misplaced m.distD T mu s ≤ c) := by
+  obtain ⟨_, hkl, hkr, _, _, hun⟩ := C12_sinkhorn_plan T tol n m mu nu hnu s h
+  obtain ⟨heq, htot⟩ := hun hclamp
+  have hcolP : ∀ j : Fin s.rhs.length, ∑ i, planFin m.distD T s i j = nuFin nu s j := by
+    intro j
+    unfold nuFin
+    rw [← heq (s.rhs[j.1]) (List.getElem_mem j.2)]
+    unfold colSum
+    rw [← Fin.sum_univ_fun_getElem s.lhs (fun xf => coupling m.distD T xf.1 xf.2 (s.rhs[j.1]).1 (s.rhs[j.1]).2)]
+    rfl
+  have hμ0 : ∀ i, 0 ≤ muFin mu s i := fun i => by
+    simp only [muFin, density, R_div, R_ofNat]; exact div_nonneg (Nat.cast_nonneg _) (Nat.cast_nonneg _)
+  have hμ'0 : ∀ i, 0 ≤ rowFin m.distD T s i := fun i =>
+    sum_nonneg fun j _ => le_of_lt (sinkhorn_plan_pos ..)
+  have hsumμ : ∑ i, muFin mu s i = 1 := by
+    unfold muFin
+    rw [Fin.sum_univ_fun_getElem s.lhs (fun xf => (density mu xf.1 : ℝ))]
+    have : (s.lhs.map fun xf => (density mu xf.1 : ℝ)) = (s.lhs.map Prod.fst).map fun x => (density mu x : ℝ) := by
+      simp [List.map_map, Function.comp_def]
+    rw [this, hkl]
+    simp only [Hist.support, List.map_map, Function.comp_def]
+    exact density_total mu hmu
+  have hsumμ' : ∑ i, rowFin m.distD T s i = 1 := by
+    unfold rowFin; rw [planFin_total]; exact htot
+  have hgib := planFin_gibbs m.distD T s
+  refine ⟨_, cost_eq_fin m.distD T s, ?_, ?_⟩
+  · -- upper bound
+    rintro Q ⟨hQ, hrow, hcol⟩
+    obtain ⟨Q2, hQ2, hrow2, hcol2, hcost2⟩ := ot_transfer (costFin m.distD s) hC0 hC1
+      (rowFin m.distD T s) (muFin mu s) (nuFin nu s) hμ'0 hμ0 (by rw [hsumμ, hsumμ']) Q hQ hrow hcol
+    have hmass : ∑ i, ∑ j, planFin m.distD T s i j ≤ 1 := le_of_eq hsumμ'
+    have hb : ∑ i, ∑ j, planFin m.distD T s i j * costFin m.distD s i j
+        ≤ (∑ i, ∑ j, Q2 i j * costFin m.distD s i j)
+          + T * min (ent fun i => ∑ j, planFin m.distD T s i j) (ent fun j => ∑ i, planFin m.distD T s i j) := by
+      rw [hgib] at hmass ⊢
+      exact gibbs_cost_le T hT _ _ (costFin m.distD s) Q2 hQ2
+        (by rw [← hgib]; exact hrow2) (by rw [← hgib]; intro j; rw [hcol2 j, hcolP j]) hmass
+    have hent : (ent fun j => ∑ i, planFin m.distD T s i j) = ent (nuFin nu s) := by
+      congr 1; funext j; exact hcolP j
+    rw [hent] at hb
+    have habs : ∑ i, |rowFin m.distD T s i - muFin mu s i| = ∑ i, |muFin mu s i - rowFin m.distD T s i| :=
+      sum_congr rfl fun i _ => abs_sub_comm _ _
+    rw [habs] at hcost2
+    unfold misplaced
+    have e1 : (ent fun i => ∑ j, planFin m.distD T s i j) = ent (rowFin m.distD T s) := rfl
+    rw [e1] at hb
+    linarith
+  · -- lower bound
+    intro L hL
+    obtain ⟨Q2, hQ2, hrow2, hcol2, hcost2⟩ := ot_transfer (costFin m.distD s) hC0 hC1
+      (muFin mu s) (rowFin m.distD T s) (nuFin nu s) hμ0 hμ'0 (by rw [hsumμ, hsumμ'])
+      (planFin m.distD T s) (fun i j => le_of_lt (sinkhorn_plan_pos ..)) (fun i => rfl) hcolP
+    have := hL Q2 ⟨hQ2, hrow2, hcol2⟩
+    unfold misplaced
+    linarith
+
+end entropic
+
+/-- non-vacuity of `C12_sinkhorn_plan`: two valid histograms over the learned buckets `a, b` and a
+    metric knowing the pair: `minimize` (128 iterations) returns a plan, to which the theorem applies -/
+example (T tol : ℝ) : ∃ s,
+    minimize T tol RP.Gen.C12.iterations ⟨[(pairKey (2 ^ 64 + 1) (2 ^ 64 + 2), (1 : ℝ))]⟩
+      ⟨3, [(2 ^ 64 + 1, 1), (2 ^ 64 + 2, 2)]⟩ ⟨2, [(2 ^ 64 + 1, 1), (2 ^ 64 + 2, 1)]⟩ = some s ∧
+    (∀ yg ∈ s.rhs, colSum (Metric.distD ⟨[(pairKey (2 ^ 64 + 1) (2 ^ 64 + 2), (1 : ℝ))]⟩) T s yg
+        ≤ density (⟨2, [(2 ^ 64 + 1, 1), (2 ^ 64 + 2, 1)]⟩ : Hist) yg.1) := by
+  obtain ⟨s, hs⟩ := minimize_total T tol RP.Gen.C12.iterations
+    ⟨[(pairKey (2 ^ 64 + 1) (2 ^ 64 + 2), (1 : ℝ))]⟩
+    ⟨3, [(2 ^ 64 + 1, 1), (2 ^ 64 + 2, 2)]⟩ ⟨2, [(2 ^ 64 + 1, 1), (2 ^ 64 + 2, 1)]⟩
+    (by simp) (by simp) (by decide +kernel)
+  refine ⟨s, hs, ?_⟩
+  have hv : (⟨2, [(2 ^ 64 + 1, 1), (2 ^ 64 + 2, 1)]⟩ : Hist).Valid :=
+    ⟨by simp [Hist.WF, SortedKeys], by decide, by decide, by simp⟩
+  have h128 : RP.Gen.C12.iterations = 127 + 1 := by decide
+  rw [h128] at hs
+  exact (C12_sinkhorn_plan T tol 127 _ _ _ hv s hs).2.2.2.2.1
+
+end RP.C12
